@@ -238,12 +238,76 @@ def r2(ctx):
                             gd = True
             if len(stores) == 2 and gd:
                 swaps += 1
+        swap_loops = [l for l in for_loops(s) if len([st for st in s.stores if st['blk'] in l['blocks'] and st['target'][1] == ('p', 1) and
+                                                        st['target'][2][:1] == (('f', 'moves'),) and len(st['target'][2]) == 2]) == 2]
+        if len(swap_loops) == 1:
+            partition_always(ctx, R, s, swap_loops[0]['header'])
         if swaps == 1:
             ctx.ok(R, 'partition: inside the second scan a used entry is exchanged (two stores) into the first unused slot', where(s.body))
         elif not for_loops(s):
             ctx.inconclusive(R, 'set_iterator_mask: the partition is not written with `for` loops (not analysed)')
         else:
             ctx.violation(R, SETMASK + ':swap', 'partition loop does not exchange used entries forward (found %d swap loops)' % swaps, where(s.body))
+
+
+def partition_always(ctx, R, s, h):
+    """every path through set_iterator_mask runs the partition scan (loop header h), except under a condition that makes
+    the list trivially partitioned: the new mask is EMPTY (no entry is in use) or there is at most one entry"""
+    body = s.body
+    an = ctx.an()
+
+    def reach_avoid(start):
+        seen = {start}
+        st = [start]
+        while st:
+            b = st.pop()
+            for x in body.successors(b):
+                if x != h and x not in seen:
+                    seen.add(x)
+                    st.append(x)
+        return seen
+    rets = set(body.return_blocks())
+    A = reach_avoid(0)
+    if not (A & rets):
+        ctx.ok(R, 'set_iterator_mask: every path to the return runs the partition scan', where(body))
+        return
+    B = {b for b in A if reach_avoid(b) & rets}
+    n_dec = 0
+    for b in sorted(B):
+        t = body.blocks[b]['term']
+        if t['k'] != 'switch':
+            continue
+        edges = [(v, tb) for v, tb in t['targets']] + [('otherwise', t['otherwise'])]
+        if all(tb in B for _, tb in edges):
+            continue
+        n_dec += 1
+        c = bb(s.switches[b], an) if s.switches.get(b) is not None else None
+        vals = [v for v, _ in edges]
+        by = [v for v, tb in edges if tb in B]
+        tv = None
+        if set(vals) == {0, 'otherwise'} and len(by) == 1:
+            tv = by[0] == 'otherwise'
+        w = where(body, t['line'])
+        ok = None
+        if c is not None and tv is not None:
+            if c[0] in ('bbeq', 'bbne') and ('param', 2) in c[1:] or (c is not None and c[0] in ('bbeq', 'bbne') and MASK in c[1:]):
+                other = [x for x in c[1:] if x not in (('param', 2), MASK)]
+                ok = bool(other) and other[0] == ('bb0',) and ((c[0] == 'bbeq') == tv)
+            elif c[0] == 'call' and c[1].endswith('::is_empty') and norm(c[2][0]) in (MOVES, ('ref', ('p', 1), (('f', 'moves'),))):
+                ok = tv is True
+            elif c[0] == 'bin' and c[3][0] == 'int' and norm(c[2]) == ALEN:
+                k = c[3][1]
+                hi = {('Lt', True): k - 1, ('Le', True): k, ('Eq', True): k, ('Ge', False): k - 1, ('Gt', False): k, ('Ne', False): k}.get((c[1], tv))
+                ok = hi is not None and hi <= 1
+        if ok is True:
+            ctx.ok(R, 'set_iterator_mask: the partition is skipped only when the list is trivially partitioned (%s is %s)' % (sh(c, 60), tv), w)
+        elif ok is False:
+            ctx.violation(R, SETMASK + ':partition-skipped', 'set_iterator_mask returns without running the partition when `%s` is %s: entries that '
+                          'were exhausted under an earlier mask stay in front, and next()/len() stop at the first of them' % (sh(c, 80), tv), w)
+        else:
+            ctx.inconclusive(R, 'set_iterator_mask skips the partition under a condition that is not analysed: %s' % sh(c, 120))
+    if n_dec == 0:
+        ctx.inconclusive(R, 'set_iterator_mask: a path avoids the partition scan but its deciding branch was not found')
 
 
 def r3(ctx):
